@@ -9,6 +9,7 @@ package main
 
 import (
 	"fmt"
+	"path/filepath"
 	"sort"
 	"strings"
 
@@ -24,6 +25,11 @@ type mWatch struct {
 	Recurse  bool // part of a recursive watch
 	Root     bool // the root of a recursive watch (listed by WatchList)
 	Inc      int  // incarnation id (index into Model.Incs)
+	// ParentRemoved: a watched directory has already reported Remove under
+	// exactly this watch's path (the entry was removed there, the file itself
+	// lives on: an open descriptor, or - for a directory - an unlinked entry
+	// that is still open)
+	ParentRemoved bool
 }
 
 // Incarnation is the life of one model watch, for Stage A.
@@ -271,12 +277,22 @@ func (m *Model) Feed(r *sinot.Record) []MEvent {
 		if m.Uncertain != nil && m.Uncertain(r.Wd, r.Step) {
 			ev.Optional = true
 		}
+		if w.ParentRemoved {
+			ev.Optional = true
+		}
 		if m.ParentReported != nil {
 			for j := range m.W {
 				if m.ParentReported(m.W[j].Ino, w.Ino, r.Step) {
 					ev.Optional = true
 					break
 				}
+			}
+		}
+	}
+	if r.Mask&unix.IN_DELETE != 0 && r.Name != "" && ev.Op&mRemove != 0 {
+		for k := range m.W {
+			if k != i && filepath.Clean(m.W[k].Spelling) == filepath.Clean(name) {
+				m.W[k].ParentRemoved = true
 			}
 		}
 	}
